@@ -52,6 +52,61 @@ def run_store(ctx, model, cases):
     return t
 
 
+def run_store_nat(ctx, cases):
+    """natural-hash interned families (values spread over all shards; a reclaimed slot gets a value
+    whose hash differs from the old occupant's). No Lean twin: shard choice is internal to the
+    hash table, so the tie here is the retention/canonicity reference `intern_oracle` alone."""
+    t = Tie('store-intern-natural-hash')
+    t.rule = ('large batches of ordinary-hash interned values over several revisions on the real interner (families with '
+              'revisions = 1, 2); every answer (hit / new / reuse, slot, generation) is checked against the retention and '
+              'canonicity reference (one handle per live value; a slot is reclaimed only for a LOW value not interned in the '
+              'last N used revisions); evaluations = intern requests')
+    binp = ctx.cargo_bin('store')
+    ops = os.path.join(ctx.work, 'store-internnat.ops'); imp = os.path.join(ctx.work, 'store-internnat.impl')
+    rc, out, _ = sh([binp, 'gen', '--model', 'internnat', '--seed', str(ctx.seed + 17), '--cases', str(cases), '--out', ops])
+    if rc != 0:
+        raise HarnessError('store gen failed: ' + out[-400:])
+    rc, out, _ = sh([binp, 'run', '--model', 'internnat', '--ops', ops, '--out', imp], timeout=1800)
+    with open(ops) as f:
+        lines = f.read().split('\n')
+    if rc != 0:
+        # the implementation died (a signal / abort: memory unsafety inside the interner is one way a
+        # broken reuse shows): find the case that kills it and report it as the failing input
+        starts = [i for i, l in enumerate(lines) if l.startswith('new ')] + [len(lines)]
+        for a, b in zip(starts, starts[1:]):
+            one = os.path.join(ctx.work, 'store-internnat-one.ops')
+            with open(one, 'w') as f:
+                f.write('\n'.join(lines[a:b]) + '\n')
+            rc1, out1, _ = sh([binp, 'run', '--model', 'internnat', '--ops', one, '--out', one + '.impl'], timeout=600)
+            if rc1 != 0:
+                rp = ctx.save_replay('store-internnat-crash-line%d.ops' % (a + 1), '\n'.join(lines[a:b]) + '\n')
+                t.evaluations = b - a
+                t.failures.append(Failure('oracle', 'the interner (natural hash) killed the process (exit status %d) on the case starting at '
+                                                    'line %d: %s' % (rc1, a + 1, out1[-200:]), replay=rp, key='impl-crash'))
+                return t
+        raise HarnessError('store run failed (rc=%d) but no single case reproduces it: %s' % (rc, out[-400:]))
+    with open(imp) as f:
+        text = f.read()
+    t.evaluations = sum(1 for l in lines if l.startswith('intern '))
+    t.distinct_nontrivial = cases
+    t.info['reuse_steps'] = text.count('\nreuse ')
+    t.info['hit_steps'] = text.count('\nhit ')
+    t.info['panics'] = text.count('\npanic')
+    ob = intern_oracle(lines, text.split('\n'))
+    if t.info['panics']:
+        i = text.split('\n').index('panic')
+        ob = [(i, 'the interner panicked')] + ob
+    t.info['retention_oracle_failures'] = len(ob)
+    for (i, msg) in ob[:2]:
+        start = i
+        while start > 0 and not lines[start].startswith('new '):
+            start -= 1
+        rp = ctx.save_replay('store-internnat-oracle-line%d.ops' % (i + 1), '\n'.join(lines[start:i + 1]) + '\n')
+        t.failures.append(Failure('oracle', 'interner (natural hash) line %d `%s`: %s' % (i + 1, lines[i], msg), replay=rp, key='intern-retention'))
+    t.samples.append({'ops': lines[:8], 'reuse_steps': t.info['reuse_steps']})
+    return t
+
+
 def intern_oracle(ops_lines, impl_lines):
     """C09/C08 retention-rule reference evaluated on the implementation's answers (independent of
     the Lean model). Returns list of (lineno, message)."""
@@ -60,7 +115,7 @@ def intern_oracle(ops_lines, impl_lines):
     for i, (op, out) in enumerate(zip(ops_lines, impl_lines)):
         p = op.split(' ')
         if p[0] == 'new' and len(p) == 2 and out == 'ok':
-            fam = None if p[1] == 'max' else int(p[1]); cur = 1; used = set(); slots = {}; start = i
+            fam = {'max': None, 'n1': 1, 'n2': 2}.get(p[1], int(p[1]) if p[1].isdigit() else 3); cur = 1; used = set(); slots = {}; start = i
         elif p[0] == 'rev' and out == 'ok':
             cur = int(p[1])
         elif p[0] == 'intern' and len(p) == 4 and out not in ('bad-op', 'panic'):
@@ -106,3 +161,33 @@ def intern_oracle(ops_lines, impl_lines):
                     bad.append((i, 'slot %d (value %d) reclaimed for value %d although %s [case starts at line %d]' % (k, old['value'], f, why, start + 1)))
                 slots[k] = {'value': f, 'maxdur': edur, 'last': elast}
     return bad
+
+
+def replay_store(ctx, path):
+    """replays a saved store replay: `.ops` files whose first line is `new n1|n2|1|2|3|max` go to the
+    interner (natural-hash families have no Lean twin), `cap …` files to the LRU."""
+    binp = ctx.cargo_bin('store')
+    with open(path) as f:
+        lines = f.read().split('\n')
+    first = next((l for l in lines if l), '')
+    model = 'lru' if first.startswith('cap') else ('internnat' if first in ('new n1', 'new n2') else 'intern')
+    imp = os.path.join(ctx.work, 'replay-store.impl')
+    rc, out, _ = sh([binp, 'run', '--model', model, '--ops', path, '--out', imp], timeout=600)
+    if rc != 0:
+        print('the implementation killed the process: exit status %d %s' % (rc, out[-300:]))
+        return 1
+    outs = open(imp).read().split('\n')
+    bad = 0
+    if model != 'lru':
+        for (i, msg) in intern_oracle(lines, outs):
+            print('ORACLE line %d `%s`: %s' % (i + 1, lines[i], msg)); bad += 1
+    if model in ('lru', 'intern'):
+        mod = os.path.join(ctx.work, 'replay-store.model')
+        ctx.run_driver(model, path, mod)
+        n, mism, total = diff_streams(path, imp, mod)
+        for m in mism:
+            print('MODEL-DIFF line %d op=%s impl=%s model=%s' % m)
+        bad += total
+    for a, b in list(zip(lines, outs))[-12:]:
+        print('%-28s => %s' % (a, b))
+    return 1 if bad else 0
